@@ -86,6 +86,8 @@ type verifC03Row struct {
 	Cent   [][2]int `json:"cent"`
 	USkip  int      `json:"uskip"`
 	UItems []int    `json:"uitems"`
+	UCnt   int      `json:"ucnt"`  // number of hashes the decoded state carries
+	USize  int      `json:"usize"` // ChUnique.Size() of the decoded state
 	MinH   int      `json:"minH"`
 	MaxH   int      `json:"maxH"`
 	CntH   int      `json:"cntH"`
@@ -723,7 +725,7 @@ func (run *verifC03Run) execute(res *verifkit.Result, ri int, events *[]map[stri
 				res.Count("big_sketches_thinned", 1)
 			}
 		} else {
-			r.USkip = dskip
+			r.USkip, r.UCnt, r.USize = dskip, len(dhash), int(d.uniq.Size(true))
 			for _, h := range dhash {
 				id, ok := hashID[h]
 				if !ok {
